@@ -410,6 +410,7 @@ def search(parts=("end_to_end", "broken", "absolute", "remote")):
             bad = absolute_local_path() or relative_external_path_from_elsewhere()
         elif part == "declarations":
             bad, _ = external_entities_in_declarations()
+            bad = bad or imported_binding_flags()
         elif part == "same_names":
             bad = same_names_in_a()
         elif part == "hide_undoc":
@@ -420,6 +421,36 @@ def search(parts=("end_to_end", "broken", "absolute", "remote")):
             return {"confirmed": True, "input": {"scenario": part, "A": EXT_A if part == "declarations" else A_FILES, "B": EXT_B if part == "declarations" else B_FILES}, "actual": bad[:6],
                     "expected": "links into A exist and name the entity; B's own entities win; a bad description costs only the links",
                     "how": "real FORD runs: A with externalize, then B with external: liba = <A's output>"}
+    return None
+
+
+def imported_binding_flags():
+    """a binding that a type of B inherits from a type of A is declared in B's pages as it is in A's source: `procedure :: area` is neither generic nor deferred after the
+    round trip through modules.json"""
+    ext = loader.import_repo("ford.external_project")
+    os.makedirs(realrun.TMPROOT, exist_ok=True)
+    sb = tempfile.mkdtemp(dir=realrun.TMPROOT)
+    try:
+        src_a = ("module amod\n  type :: shape_t\n    integer :: n\n  contains\n    procedure :: area\n    procedure(area), deferred :: later\n    generic :: g => area\n  end type shape_t\ncontains\n"
+                 "  subroutine area(self)\n    class(shape_t) :: self\n  end subroutine area\nend module amod\n")
+        pa = realrun.build_project({"src/a.f90": src_a})
+        os.makedirs(os.path.join(sb, "A", "doc"))
+        with contextlib.redirect_stdout(io.StringIO()):
+            ext.dump_modules(pa, os.path.join(sb, "A", "doc"))
+        pb = realrun.build_project({"src/b.f90": "module bmod\n  use amod\n  type, extends(shape_t) :: box_t\n  end type box_t\nend module bmod\n"}, external={"liba": os.path.join(sb, "A", "doc")})
+        t = [t for t in pb.types if t.name == "box_t"][0]
+        got = {bp.name: (bool(getattr(bp, "generic", None)) if getattr(bp, "generic", None) in (True, False) else repr(getattr(bp, "generic", None)),
+                         bool(getattr(bp, "deferred", None)) if getattr(bp, "deferred", None) in (True, False) else repr(getattr(bp, "deferred", None))) for bp in t.boundprocs}
+        want = {"area": (False, False), "later": (False, True), "g": (True, False)}
+        if got != want:
+            return [f"bindings box_t inherits from A's shape_t, (generic, deferred): {got}, in A's source: {want}"]
+        decl = {bp.name: bp.full_declaration for bp in t.boundprocs if bp.name == "area"}
+        if decl != {"area": "procedure, public"}:
+            return [f"declaration shown for the inherited `procedure :: area`: {decl}"]
+    except Exception as e:
+        return [f"{type(e).__name__}: {e}"]
+    finally:
+        shutil.rmtree(sb, ignore_errors=True)
     return None
 
 
